@@ -32,6 +32,12 @@ def RawOp.wf (o : RawOp) : Prop := o.opcode < 256 ∧ (o.data.isSome ↔ o.opcod
 /-- the bytes a raw operation occupies: opcode byte, length field of its push form, payload -/
 def RawOp.enc (o : RawOp) : Bytes := Spec.Script.opEnc o.opcode (o.data.getD [])
 
+/-- the exception raw_iter raises at the malformed push `b :: t`: CScriptInvalidError when the length
+    field is incomplete, otherwise CScriptTruncatedPushDataError carrying the payload bytes present -/
+def truncErr (b : UInt8) (t : Bytes) : IterErr :=
+  if t.length < Spec.Script.lenBytes b.toNat then .missingLen
+  else .truncated (t.drop (Spec.Script.lenBytes b.toNat))
+
 /-! ### _bignum.py -/
 
 /-- `int.bit_length()` of a non-negative int (Python's bit_length ignores the sign) -/
@@ -141,45 +147,70 @@ def isSmallInt (opc : Nat) : Bool := (0x51 ≤ opc ∧ opc ≤ 0x60) ∨ opc = 0
 
 /-- `CScriptOp.__new__(n)` against the 256-entry `_opcode_instances` list: Python list indexing,
     negative indices count from the end; outside −256..255 the IndexError handler runs
-    `assert len(_opcode_instances) == n` (n = 256 would extend the table and is outside every
-    caller's range). -/
+    `assert len(_opcode_instances) == n`, which passes for n = 256 only: that call appends and
+    returns CScriptOp(0x100) (and grows the module-level table, a state change this pure function
+    does not carry — Props/C08 `opcode_lookup_in_table` shows neither call site can reach it). -/
 def cscriptOpNew (n : Int) : Res Nat :=
   if 0 ≤ n ∧ n < 256 then .ok n.toNat
   else if -256 ≤ n ∧ n < 0 then .ok (n + 256).toNat
+  else if n = 256 then .ok 256
   else .error assertionError
 
 /-! ### CScript construction -/
 
-/-- `CScript.__coerce_instance` for the three token kinds -/
-def coerceInstance : Token → Res Bytes
-  | .op n => if n < 256 then .ok [UInt8.ofNat n] else .error .valueerr   -- bytes([other])
+/-- `CScript.__coerce_instance`: `some` bytes for script elements; `none` = the element is returned
+    unchanged because no `isinstance` branch applies (str, None, float, …).  bool is an int. -/
+def coerceInstance : Token → Res (Option Bytes)
+  | .op n => if n < 256 then .ok (some [UInt8.ofNat n]) else .error .valueerr   -- bytes([other])
   | .int z =>
       if 0 ≤ z ∧ z ≤ 16 then
         match encodeOpN z with
-        | .ok o => .ok [UInt8.ofNat o]
+        | .ok o => .ok (some [UInt8.ofNat o])
         | .error e => .error e
-      else if z = -1 then .ok [0x4f]
+      else if z = -1 then .ok (some [0x4f])
       else
         match bn2vch z with
-        | .ok v => encodeOpPushdata v
+        | .ok v => (encodeOpPushdata v).map some
         | .error e => .error e
-  | .data d => encodeOpPushdata d
+  | .data d => (encodeOpPushdata d).map some
+  | .bool b =>                               -- isinstance(True, int): 0 <= other <= 16
+      match encodeOpN (if b then 1 else 0) with
+      | .ok o => .ok (some [UInt8.ofNat o])
+      | .error e => .error e
+  | .other => .ok none
 
-/-- `CScript(iterable)`: `b''.join(coerce_iterable(value))`, the first failing element raises -/
-def build : List Token → Res Bytes
+/-- `b''.join(gen)` first exhausts the generator (so every element is coerced, and the first
+    coercion error propagates) … -/
+def coerceAll : List Token → Res (List (Option Bytes))
   | [] => .ok []
   | t :: ts =>
     match coerceInstance t with
     | .error e => .error e
     | .ok a =>
-      match build ts with
+      match coerceAll ts with
       | .error e => .error e
-      | .ok r => .ok (a ++ r)
+      | .ok r => .ok (a :: r)
 
-/-- `script + other` -/
+/-- … and then concatenates, raising TypeError at the first item that is not bytes-like -/
+def joinBytes : List (Option Bytes) → Res Bytes
+  | [] => .ok []
+  | none :: _ => .error (.py "TypeError")
+  | some a :: r =>
+    match joinBytes r with
+    | .error e => .error e
+    | .ok x => .ok (a ++ x)
+
+/-- `CScript(iterable)`: `b''.join(coerce_iterable(value))` -/
+def build (ts : List Token) : Res Bytes :=
+  match coerceAll ts with
+  | .error e => .error e
+  | .ok l => joinBytes l
+
+/-- `script + other`: coercion, then `bytes.__add__`, whose TypeError is re-raised as TypeError -/
 def add (s : Bytes) (t : Token) : Res Bytes :=
   match coerceInstance t with
-  | .ok a => .ok (s ++ a)
+  | .ok (some a) => .ok (s ++ a)
+  | .ok none => .error (.py "TypeError")
   | .error e => .error e
 
 /-! ### cooked iteration -/
